@@ -36,6 +36,15 @@ def _stub_call(E, a, k):
     return TYPING
 
 
+def _fraction(E, a, k):
+    from fractions import Fraction
+    vals = [E.force(x) for x in a]
+    for v in vals:
+        if isinstance(v, Sym):
+            raise Unsupported("Fraction() of symbolic value")
+    return Fraction(*vals)
+
+
 class Loader:
     def __init__(self, common_impl="py", repo=None):
         self.repo = repo or REPO
@@ -75,6 +84,7 @@ class Loader:
             "csv": StubModule("csv", {}),
             "zmq": StubModule("zmq", {"error": StubModule("zmq.error", {"Again": ExcClass("Again")})}),
             "signal": StubModule("signal", {}),
+            "fractions": StubModule("fractions", {"Fraction": Builtin("Fraction", _fraction)}),
         }
         return stubs
 
